@@ -28,6 +28,10 @@ ENDPOINT_OPTIONS = [
     dict(allowed_end=[[0, 0], [1, 1]], endpoints_not_equal=True),
     dict(allowed_start=[[0, 0], [0, 1]], allowed_end=[[0, 0], [0, 1]], endpoints_not_equal=True),
     dict(allowed_start=[[1, 0]], allowed_end=[[1, 0]]),
+    # options combined: an allowed list AND the dead-end requirement for the same endpoint
+    dict(allowed_start=[[0, 0], [0, 1], [1, 0], [1, 1]], deadend_start=True),
+    dict(allowed_end=[[0, 0], [0, 1], [1, 1]], deadend_end=True, endpoints_not_equal=True),
+    dict(allowed_start=[[0, 0], [1, 1], [0, 1]], allowed_end=[[0, 1], [1, 0], [1, 1]], deadend_start=True, deadend_end=True),
 ]
 
 
@@ -52,7 +56,8 @@ def jobs(tier, seed):
     g3 = [("gen_dfs", {})] if q else [("gen_dfs", {}), ("gen_dfs", dict(accessible_cells=5)), ("gen_dfs", dict(max_tree_depth=3)), ("gen_percolation", {}),
                                        ("gen_dfs_percolation", {}), ("gen_prim", dict(accessible_cells=4))]
     for gen, kw in g3:
-        eos = [{}, dict(deadend_start=True, deadend_end=True, endpoints_not_equal=True)] if q else ENDPOINT_OPTIONS
+        eos = [{}, dict(deadend_start=True, deadend_end=True, endpoints_not_equal=True),
+               dict(allowed_start=[[0, 0], [1, 1], [2, 1], [1, 2]], deadend_start=True)] if q else ENDPOINT_OPTIONS
         for eo in eos:
             for sp in _splits({"rng0": [0, 1], "rng1": [0, 1]}):
                 if any(v[0] == "notin" for v in sp.values()):
@@ -239,9 +244,9 @@ META = dict(
                "LatticeMaze.get_connected_component", "LatticeMaze.find_shortest_path", "SolvedMaze.__init__", "SolvedMaze.from_lattice_maze",
                "TargetedLatticeMaze.__post_init__", "all five generators"],
     bounds=dict(
-        quick="every RNG draw symbolic; grid_n=2 for all five generators (+ constrained variants) x 9 endpoint-option combinations; grid_n=3 for gen_dfs "
+        quick="every RNG draw symbolic; grid_n=2 for all five generators (+ constrained variants) x 12 endpoint-option combinations (single options and allowed-list + dead-end combined); grid_n=3 for gen_dfs "
               "x 2 endpoint combinations; MazeDataset.generate with n_mazes in {0,1} at grid_n=2; Wilson walk bound K=8",
-        thorough="grid_n=3 also for constrained dfs, prim, percolation, dfs_percolation x all 9 endpoint combinations; n_mazes up to 2",
+        thorough="grid_n=3 also for constrained dfs, prim, percolation, dfs_percolation x all 12 endpoint combinations; n_mazes up to 2",
     ),
     degenerate=dict(item="for tree generators every path is one concrete random execution (enumeration of the RNG decision tree); "
                          "percolation variants keep the edge bits symbolic through component search and A*"),
